@@ -42,5 +42,7 @@ Definition recover_ok (c : list (Z * Z) * Z) : bool := Z.eqb (recoverZ r (fst c)
 Definition vsr_ok (c : Z * list Z * nat * bool) : bool :=
   let '(dv, ys, t, verdict) := c in Bool.eqb (vsr_checkZ r dv ys t) verdict.
 
-(* DKG output of one validator: (threshold, secret shares of nodes 1..n): one polynomial of degree < t *)
-Definition dkg_ok (c : nat * list Z) : bool := on_one_polyZ r (snd c) (fst c).
+(* DKG output of one validator: (threshold, secret shares of nodes 1..n): all shares on one polynomial of
+   degree < t, and (the configured threshold is the real one) not on a polynomial of degree < t-1 *)
+Definition dkg_ok (c : nat * list Z) : bool :=
+  on_one_polyZ r (snd c) (fst c) && negb (on_one_polyZ r (snd c) (fst c - 1)).
